@@ -184,19 +184,33 @@ def parse_state_block(text):
         out[m.group(1)] = p.value()
 
 
-def iter_dump(path):
-    """Iterate over the states of a `tlc -dump file` output (file.dump)."""
+def iter_dump(path, keep=None, count=None):
+    """Iterate over the states of a `tlc -dump file` output (file.dump).  keep=(k, r): only the states whose text
+    hashes (crc32) to r modulo k are parsed and yielded; count (a one-element list) receives the number of all states."""
+    import zlib
     buf = []
+    n = 0
+
+    def wanted(text):
+        return keep is None or zlib.crc32(text.encode("utf-8")) % keep[0] == keep[1] % keep[0]
     with open(path, encoding="utf-8") as f:
         for line in f:
             if line.startswith("State "):
                 if buf:
-                    yield parse_state_block("".join(buf))
+                    n += 1
+                    text = "".join(buf)
+                    if wanted(text):
+                        yield parse_state_block(text)
                 buf = []
             else:
                 buf.append(line)
     if buf and "".join(buf).strip():
-        yield parse_state_block("".join(buf))
+        n += 1
+        text = "".join(buf)
+        if wanted(text):
+            yield parse_state_block(text)
+    if count is not None:
+        count.append(n)
 
 
 _SIMSTATE = re.compile(r"^STATE_(\d+) ==\s*$")
